@@ -3,6 +3,7 @@ package props
 import (
 	"fmt"
 	"os"
+	"path/filepath"
 	"sync"
 	"testing/synctest"
 	"time"
@@ -78,4 +79,18 @@ func tranSummary(ts []hlref.Tran) string {
 
 func writeFile(dir, name string, data []byte) error {
 	return os.WriteFile(dir+"/"+name, data, 0o644)
+}
+
+// ownRoot gives the account its own file root (the per-account FileRoot option) and restarts the
+// server so that it is loaded; it must be called before any connection is made.  The returned
+// directory is empty; the server-wide root stays what it was.
+func ownRoot(rt *rapid.T, w *hlsim.World, a hlsim.AccountSpec) string {
+	root := filepath.Join(w.Cfg, "ownroot-"+a.Login)
+	must(os.MkdirAll(root, 0o755))
+	a.FileRoot = root
+	must(os.WriteFile(filepath.Join(w.UsersDir, a.Login+".yaml"), hlsim.AccountYAML(a), 0o644))
+	if err := w.Restart(); err != nil {
+		rt.Fatalf("harness: restart with a per-account file root: %v", err)
+	}
+	return root
 }
